@@ -1,5 +1,6 @@
 import RocflModel.Script
 import RocflModel.Commit
+import RocflModel.ValidateNums
 /-
   Driver side of the physical-layer protocol: prints the model's install-phase scripts and runs the
   Lean trace monitors on observed traces.
@@ -115,6 +116,11 @@ def physStep (op : String) (a : List String) : String :=
         if mode == "kill" then "ok " ++ classify (Commit.execKill upgrade k)
         else "ok " ++ classify (Commit.execFault upgrade (some k)).1
     | _, none => "ok unmodelled"
+  -- vnums <version numbers ascending…>: E010 results of the version-number check
+  | "script-vnums", nums =>
+    let vs := nums.filterMap String.toNat?
+    let a := ValidateNums.run vs
+    s!"ok e010={a.e010}"
   | _, _ => "bad-op"
 
 end Driver
